@@ -15,7 +15,7 @@ namespace ratio
     friend class resolver;
 
   public:
-    flaw(solver &slv, std::vector<resolver *> causes, const bool &exclusive = false);
+    flaw(solver &slv, std::vector<resolver *> causes, const bool &exclusive = false, const smt::lit &condition = smt::TRUE_lit);
     flaw(const flaw &that) = delete;
     virtual ~flaw() = default;
 
@@ -72,5 +72,6 @@ namespace ratio
     const std::vector<resolver *> causes;                      // the causes for having this flaw (used for activating the flaw through causal propagation)..
     std::vector<resolver *> supports;                          // the resolvers supported by this flaw (used for propagating cost estimates)..
     const bool exclusive;                                      // a boolean indicating whether the flaw is exclusive (i.e. exactly one of its resolver can be applied)..
+    const smt::lit condition;                                  // a further literal which, together with the causes, makes the flaw active (e.g., the literal of a reified disjunction)..
   };
 } // namespace ratio
